@@ -82,7 +82,8 @@ PROPS = {
                  "correspondence of the full request matrix (5 760 cells, each against a fresh real server with follow-up probes)."
                  " The packet handlers (handleMsg, handleDiscover, handleRequest, sendMsg, sendNACK, getDuid) as translated from the source on every run, executed over the model's database steps and handler oracle, end in exactly the database and frame of the model's handle (C04Code).",
         "props": ["C04", "C02Code", "C04Code"],
-        "streams": [{"test": "TestReqMatrix", "names": ["reqmatrix"], "timeout": 300}, {"test": "TestSrvSeq", "names": ["srvseq"], "timeout": 300}],
+        "streams": [{"test": "TestReqMatrix", "names": ["reqmatrix"], "timeout": 300}, {"test": "TestSrvSeq", "names": ["srvseq"], "timeout": 300},
+                    {"test": "TestSrvOverlap", "names": ["srvoverlap"], "timeout": 120}],
         "rule": "EXHAUSTIVE matrix: sender binding {none, pending offer, lease, static, expired} x identity {hw, client id, short id, server MAC} x "
                 "IP destination {broadcast, server, other} x server identifier {none, this, other, 3 bytes} x requested address {none, bound, "
                 "another host's, outside, server's, 3 bytes} x source {0, bound, another's, outside} = 5 760 cells, each followed by a DISCOVER of the "
@@ -119,8 +120,10 @@ PROPS = {
                  " Reply assembly of lib/server/replies as translated from the source on every run equals assembleLease/assembleNak (C06Code); the codecs below it are C13Code."
                  " The packet handlers (handleMsg, handleDiscover, handleRequest, sendMsg, sendNACK, getDuid) as translated from the source on every run, executed over the model's database steps and handler oracle, end in exactly the database and frame of the model's handle (C04Code).",
         "props": ["C06", "C13Code", "C06Code", "C04Code"],
-        "streams": [{"test": "TestSrvSeq", "names": ["srvseq"], "timeout": 300}, {"test": "TestReqMatrix", "names": ["reqmatrix"], "timeout": 300}],
-        "rule": "every reply frame of the C01 scripts and of the request matrix (xid, all 16 flag bits in 5% of the messages, hardware-address lengths "
+        "streams": [{"test": "TestSrvSeq", "names": ["srvseq"], "timeout": 300}, {"test": "TestReqMatrix", "names": ["reqmatrix"], "timeout": 300},
+                    {"test": "TestReplyConc", "names": ["replyconc"], "timeout": 120}],
+        "rule": "16 goroutines assembling OFFER/ACK/NAK for their own arguments 3 000 (thorough 60 000) times each in real concurrency, every result compared with the reply "
+                "assembled alone; every reply frame of the C01 scripts and of the request matrix (xid, all 16 flag bits in 5% of the messages, hardware-address lengths "
                 "0..16, pads, trailing bytes); non-trivial = answered",
         "trusted": ["as C01"],
         "assumptions": ["wire theorems for hardware addresses of at most 16 bytes and representable configurations (CfgWf)"],
@@ -173,6 +176,8 @@ PROPS = {
                  " With the translated clients.go underneath as well, the interleaved system model sends the replies of the reference-table system for every schedule (C01CodeFull.code_system_refines_table).",
         "props": ["C09", "C10Code", "C04Code", "C01CodeStack", "C01CodeFull"],
         "streams": [{"test": "TestSrvConc", "names": ["srvconc"], "timeout": 300}, {"test": "TestDbConc", "names": ["dbconc"], "timeout": 300},
+                    {"test": "TestReplyConc", "names": ["replyconc"], "timeout": 120},
+                    {"test": "TestReplyConc", "names": ["replyconc-race"], "timeout": 300, "race": True, "env": {"HX_N": "300", "HX_SUFFIX": "-race"}, "env_thorough": {"HX_N": "6000"}},
                     {"test": "TestCfgOptions", "names": ["cfgopts"], "timeout": 300},
                     {"test": "TestSrvConc", "names": ["srvconc-race"], "timeout": 300, "race": True, "env": {"HX_N": "16", "HX_SUFFIX": "-race"},
                      "env_thorough": {"HX_N": "600"}},
